@@ -312,6 +312,14 @@ func c02Run(c *core.Ctx) {
 	}
 	// single-symbol labels by shard 0, deeper ones sharded at depth 2
 	rec(nil, 0)
+	// degenerate declaration syntax (exhaustive over small token alphabets)
+	declSyntaxDocs(4, 4, c.Next, func(doc []byte) {
+		if c.Expired() {
+			return
+		}
+		c.R.States++
+		try(doc, 0, 0, 0, "b:degenerate-declaration")
+	})
 	// labels that try to smuggle separators, further parameters or a second charset
 	if c.Mine(1) {
 		for _, l := range injectionLabels {
